@@ -162,8 +162,8 @@ theorem wfT_qHead (g : Term) : wfT (qHead g) = true := by
 /-- the clause `callGoal` compiles for the (instantiated) goal `g` -/
 def qClause (g : Term) : Term := SLD.rule (qHead g) g
 
-theorem clauseS_qClause {fl : Bool} {g : Term} (hb : bodyS fl g = true) (hw : wfT g = true) :
-    clauseS fl (qClause g) = true := by
+theorem clauseC_qClause {fl : Bool} {g : Term} (hb : bodyS fl g = true) (hw : wfT g = true) :
+    clauseC fl (qClause g) = true := by
   have hh : hornHead (qHead g) = true := by
     unfold qHead
     split
@@ -173,8 +173,8 @@ theorem clauseS_qClause {fl : Bool} {g : Term} (hb : bodyS fl g = true) (hw : wf
       cases hl : (termVars g []).map Term.var with
       | nil => simp [hl] at h
       | cons a as => simp [Args.ofList, Args.length]
-  simp only [clauseS, qClause, SLD.rule, SLD.mk2, SLD.headBody, wfT, wfAs, Bool.and_true, Bool.and_eq_true]
-  exact ⟨⟨⟨wfT_qHead g, hw⟩, hh⟩, hb⟩
+  simp only [clauseC, qClause, SLD.rule, SLD.mk2, SLD.headBody, wfT, wfAs, Bool.and_true, Bool.and_eq_true]
+  exact ⟨⟨⟨wfT_qHead g, hw⟩, headOK_of_horn hh⟩, hb⟩
 
 /-! ### `callGoal` -/
 
@@ -202,7 +202,7 @@ theorem callGoal_ok' {fl : Bool} (g : Term) (K : Cont) (env : Env) (m : MS) (g0 
   have hcc : compileCall g0 env = .ok ([clauseOf (qClause g')], argList (qHead g')) := by
     unfold compileCall
     simp only [ha]
-    have := (clauseOf_spec (qClause g') (clauseC_of_S (clauseS_qClause hb hw))).1
+    have := (clauseOf_spec (qClause g') (clauseC_qClause hb hw)).1
     change (match compile (toRep (qClause g')) with
       | .ok cs => Except.ok (cs, (termVars g' []).map Term.var)
       | .error e => .error e) = _
